@@ -242,7 +242,53 @@ def campaign_gallery(ctx):
 campaign_gallery.shards = (4, 8)
 
 
-CAMPAIGNS = {"grammar": campaign_grammar, "gallery": campaign_gallery}
+def protocol_samples():
+    """(format name, construct, bytes) taken from the byte literals of tests/deprecated_gallery/test_protocols.py"""
+    import ast
+    import binascii
+    import re
+    import deprecated_gallery as dg
+    repo = os.environ.get("VERIF_REPO", "/repo")
+    src = open(os.path.join(repo, "tests", "deprecated_gallery", "test_protocols.py")).read()
+    out = []
+    for m in re.finditer(r"common(hex|bytes)\((\w+),\s*(b(?:\"(?:[^\"\\\\]|\\\\.)*\"))\s*\)", src):
+        kind, name, lit = m.groups()
+        if not hasattr(dg, name):
+            continue
+        try:
+            raw = ast.literal_eval(lit)
+            data = binascii.unhexlify(raw) if kind == "hex" else raw
+        except Exception:
+            continue
+        out.append((name, getattr(dg, name), data))
+    return out
+
+
+def campaign_protocols(ctx):
+    samples = protocol_samples()
+    ctx.note("protocol samples", len(samples))
+    for name, con, data in samples:
+        f, accepted, noncanon = idempotence(con, data, {}, False, "proto." + name, "deprecated_gallery.%s on its sample" % name)
+        ctx.record(["protocol", name, data], accepted, ["protocol/" + name])
+        ctx.handle(f, ["protocol", name, data])
+
+    def mut_oracle(case):
+        idx, data = case
+        name, con, _ = samples[idx]
+        f, accepted, noncanon = idempotence(con, data, {}, False, "proto." + name, "deprecated_gallery.%s on a mutated sample" % name)
+        ctx.record(["protocol-mutated", name, data], accepted and noncanon, ["protocol-mutated/" + ("accepted" if accepted else "rejected")])
+        return f
+
+    @st.composite
+    def mut_cases(draw):
+        idx = draw(st.integers(0, len(samples) - 1))
+        return [idx, draw(mutated(samples[idx][2], max_ops=2))]
+    if samples:
+        ctx.search(mut_cases(), mut_oracle, ctx.budget(3000, 100000), name="protocols-mutated")
+campaign_protocols.shards = (2, 8)
+
+
+CAMPAIGNS = {"grammar": campaign_grammar, "gallery": campaign_gallery, "protocols": campaign_protocols}
 
 
 def replay(campaign, case):
@@ -250,6 +296,13 @@ def replay(campaign, case):
         def record(self, *a, **k): pass
     if campaign == "grammar":
         return oracle_factory(_C())(case)
+    if campaign in ("protocols", "protocols-mutated"):
+        samples = protocol_samples()
+        if case[0] == "protocol":
+            con = dict((n, c) for n, c, _ in samples)[case[1]]
+            return idempotence(con, case[2], {}, False, "proto." + case[1], case[1])[0]
+        name, con, _ = samples[case[0]]
+        return idempotence(con, case[1], {}, False, "proto." + name, name)[0]
     fmts = gallery_formats()
     if case[0] == "gallery":
         for name, con, path in fmts:
